@@ -171,6 +171,10 @@ def run(ctx):
         got_list = [norm(x) for x in le.elts] if isinstance(le, (ast.List, ast.Tuple)) else None
         if got_list is None and not verdicts and re.match(r'^(list\(reversed\(\w+\)\)|\w+|\w+\[::-1\])$', lt):
             got_list = []
+        if got_list is None and re.search(r'\bsorted\(|\.sort\(', lt):
+            ctx.violation('C11.3', 'order:parity', f_get.loc(), 'the list returned is re-ordered by a key (%s): recorded order - oldest first as the messages arrived - is not what a sort by value gives '
+                          '(equal or wrapped time stamps)' % lt[:100])
+            continue
         if got_list is None:
             raise AnalysisError('C11.3: cannot read the elements of the list _get_matching returns off `%s`' % lt[:80])
         ctx.check(got_list == want_list, 'C11.3', 'order:parity', f_get.loc(),
